@@ -1,8 +1,9 @@
 // facts extracts, from /repo's CURRENT source (go/parser + go/ast only), the facts the Lean model
 // depends on and writes them as plain Lean data:
-//   F1  JSON schema of the metadata structs: per field (json name, omitempty, Go type), embedded structs flattened
-//   F2  constants the model hard-codes (formats, payload type, key types/schemes, regexps, hash names)
-//   F3  package-level variables of package in_toto and the non-init functions that write to them
+//
+//	F1  JSON schema of the metadata structs: per field (json name, omitempty, Go type), embedded structs flattened
+//	F2  constants the model hard-codes (formats, payload type, key types/schemes, regexps, hash names)
+//	F3  package-level variables of package in_toto and the non-init functions that write to them
 package main
 
 import (
@@ -314,6 +315,46 @@ func main() {
 	sb.WriteString("/-- (function, package-level variable) for every non-init function of package in_toto that assigns to, mutates, takes the address of or calls a method on a package-level variable (error sentinels excepted for method calls) -/\n")
 	sb.WriteString("def sharedWrites : List (List Char × List Char) := [")
 	for i, w := range writes {
+		if i > 0 {
+			sb.WriteString(", ")
+		}
+		fmt.Fprintf(&sb, "(%s, %s)", leanStr(w.fn), leanStr(w.v))
+	}
+	sb.WriteString("]\n")
+	// ---- F4 calls that change PROCESS-wide state (working directory, environment, umask, default
+	// logger, global random source, scheduler settings): shared by all goroutines of the caller ----
+	global := map[string]bool{"os.Chdir": true, "os.Setenv": true, "os.Unsetenv": true, "os.Clearenv": true, "syscall.Chdir": true,
+		"syscall.Umask": true, "syscall.Setenv": true, "syscall.Unsetenv": true, "unix.Chdir": true, "unix.Umask": true,
+		"log.SetOutput": true, "log.SetFlags": true, "log.SetPrefix": true, "rand.Seed": true, "flag.Set": true, "flag.Parse": true,
+		"signal.Notify": true, "signal.Ignore": true, "signal.Reset": true, "runtime.GOMAXPROCS": true, "debug.SetGCPercent": true,
+		"debug.SetMaxThreads": true, "debug.SetMemoryLimit": true, "os.Exit": true}
+	var gcalls []wr
+	gseen := map[wr]bool{}
+	for _, f := range files {
+		for _, d := range f.Decls {
+			fd, ok := d.(*ast.FuncDecl)
+			if !ok || fd.Body == nil {
+				continue
+			}
+			ast.Inspect(fd.Body, func(n ast.Node) bool {
+				if ce, ok := n.(*ast.CallExpr); ok {
+					fn := typeString(fset, ce.Fun)
+					if global[fn] {
+						w := wr{fd.Name.Name, fn}
+						if !gseen[w] {
+							gseen[w] = true
+							gcalls = append(gcalls, w)
+						}
+					}
+				}
+				return true
+			})
+		}
+	}
+	sort.Slice(gcalls, func(i, j int) bool { return gcalls[i].fn+gcalls[i].v < gcalls[j].fn+gcalls[j].v })
+	sb.WriteString("/-- (function, callee) for every call in package in_toto to a function that changes PROCESS-wide state (working directory, environment, umask, default logger, global random source, signal handling, scheduler and GC settings, exit) -/\n")
+	sb.WriteString("def processGlobalCalls : List (List Char × List Char) := [")
+	for i, w := range gcalls {
 		if i > 0 {
 			sb.WriteString(", ")
 		}
